@@ -225,7 +225,7 @@ def build_cases(pub, types, rng, tier):
             frompy(config, t, r["kind"], v, "tlc-pub", model, s_expect)
 
     # (2) witnesses beyond the scaled image: P and the reference rule on real constants
-    nrand = 40 if tier == "quick" else 1500
+    nrand = 40 if tier == "quick" else 500
     for config in out:
         for t in types:
             lo, hi = t["lo"], t["hi"]
